@@ -117,6 +117,8 @@ void cmb_resourceguard_terminate(struct cmb_resourceguard *rgp)
     cmi_hashheap_terminate((struct cmi_hashheap *)rgp);
 }
 
+static void wakeup_event_resource(void *vp, void *arg);
+
 /*
  * cmb_resourceguard_wait - Enqueue and suspend the calling process until it
  * reaches the front of the priority queue and its demand function returns true.
@@ -157,12 +159,27 @@ int64_t cmb_resourceguard_wait(struct cmb_resourceguard *rgp,
 
     /* Back here, possibly much later. Return the signal that resumed us. */
     CMI_VERIF_EMIT("GuardLeave", 0u, rgp, pp, sig, 0.0);
-    if (sig != CMB_PROCESS_SUCCESS) {
-        cmi_hashheap_cancel((struct cmi_hashheap *)rgp, key);
+
+    /* An interrupt has already removed us from the queue and the awaits list */
+    const bool registered = cmi_process_remove_awaitable(pp,
+                                                   CMI_PROCESS_AWAITABLE_RESOURCE,
+                                                   rgp);
+    if ((sig != CMB_PROCESS_SUCCESS) && registered) {
+        if (!cmi_hashheap_cancel((struct cmi_hashheap *)rgp, key)) {
+            /*
+             * Woken by something else (a timer, say), but no longer in the
+             * queue: We had just been granted our demand, the wakeup call is
+             * on its way. We are not taking it. Make sure it does not arrive
+             * later in the middle of something else, and pass the turn on to
+             * the next in line instead of losing it.
+             */
+            (void)cmb_event_pattern_cancel(wakeup_event_resource, pp,
+                                           CMB_ANY_OBJECT);
+            (void)cmb_resourceguard_signal(rgp);
+        }
     }
 
     cmb_assert_debug(!cmi_hashheap_is_enqueued((struct cmi_hashheap *)rgp, key));
-    cmi_process_remove_awaitable(pp, CMI_PROCESS_AWAITABLE_RESOURCE, rgp);
 
     return sig;
 }
